@@ -314,6 +314,17 @@ Q_C03builtin == {[BaseQ EXCEPT !.items = <<it, E(Fa(1))>>, !.where = w] :
 Q_C03none == {[BaseQ EXCEPT !.items = <<E(Fa(3)), Agg("COUNT", <<"int", 1>>)>>, !.hasgroup = TRUE, !.group = <<Fa(1)>>],
               [BaseQ EXCEPT !.items = <<E(Fa(3)), Agg("MAX", Fa(2))>>]}
 --------------------------------------------------------------------------
+(* The engine refines the writer-protocol abstraction WriterChain (whose safety Apalache proves for any number of records): *)
+AbsPc == CASE pc \in {"setupA", "setupB", "parse", "buildB", "header"} -> "pre"
+           [] pc \in {"init", "loop", "rec", "match", "feed"} -> "loop"
+           [] pc = "finish" -> "flush"
+           [] pc = "done" -> "done"
+           [] OTHER -> "failed"
+AbsMode == IF Sorted(q) \/ Aggregated(q) \/ q.distinct = "count" THEN "buffered" ELSE "stream"
+WC == INSTANCE WriterChain WITH apc <- AbsPc, astop <- (stop \/ mon.refused), mode <- AbsMode, m <- mon
+ChainRefinement == WC!WSpec
+
+--------------------------------------------------------------------------
 (* Action coverage without TLC's -coverage option (its instrumentation of the recursive Ref operators exhausts a 24 GB heap even on the
    smallest configuration): one TLC register per action, incremented when the action is taken.  Registers are per worker, so the counting
    run uses -workers 1; the POSTCONDITION prints them. *)
